@@ -299,6 +299,8 @@ PROPS['C17'] = dict(
           'categorical as str', env=_SYMFF),
         O('C17.indexed_values', 'harness.c17_external', 'indexed_values', 120, 600,
           'name[i] parameters grouped into one list in index order, for every subset of indices and insertion order', env=_SYMFF),
+        O('C17.indexed_many', 'harness.c17_external', 'indexed_many', 120, 600,
+          '12 indexed parameters w[0..11] come back in numeric index order for three insertion orders', env=_SYMFF),
         O('C17.conditional_values', 'harness.c17_external', 'conditional_values', 120, 600,
           'only active children presented; unknown or inactive parameters raise ValueError (no silent truncation)', env=_SYMFF),
     ])
